@@ -203,7 +203,8 @@ def gen_cases(tier, seed):
     for nsurf in ([1, 2, 3] if q else [1, 2, 3, 4]):
         for procs in ([2, 4] if q else [2, 4, 8]):
             cases.append(dict(mode='sched_tessellate', nsurf=nsurf, procs=procs))
-    for grid in ([[2, 2, 2]] if q else [[2, 2, 2], [3, 2, 2]]):
+    # voxel counts 8, 18 (and 12, 45 in thorough): not all divisible by the worker counts
+    for grid in ([[2, 2, 2], [3, 3, 2]] if q else [[2, 2, 2], [3, 2, 2], [3, 3, 2], [5, 3, 3]]):
         for procs in ([2, 4] if q else [2, 4, 8]):
             for kind in ('surface', 'volume'):
                 cases.append(dict(mode='sched_voxelize', grid=grid, procs=procs, kind=kind))
